@@ -80,7 +80,16 @@ def _check_syntactic(m, run, funcs, summ, contracts):
     cs_ok = len(run.obs) > n_cs and all(o.ok for o in run.obs[n_cs:])
     with run.corroborating(cs_ok, 'CS2', rules=('LY3.weights-follow-points',)):
         ld.construct_rules(m, run, summ)
-    ld.extract_rules(m, run, summ)
+    # the surfaces extracted from a volume are decided on a labelled volume with surfaces of the real classes (EX4); the symbolic-size
+    # interpretation of extract_surfaces corroborates
+    n_ex4 = len(run.obs)
+    try:
+        _sd.ex4(m, run)
+    except AnalysisError as ex:
+        run.error(str(ex))
+    ex4_ok = len(run.obs) > n_ex4 and all(o.ok for o in run.obs[n_ex4:])
+    with run.corroborating(ex4_ok, 'EX4', rules=()):
+        ld.extract_rules(m, run, summ)
     n2 = len(run.obs)
     _sd.ex2(m, run)
     ex_ok = all(o.ok for o in run.obs[n2:])
